@@ -401,14 +401,14 @@ public:
     TCB_SPAN_CONSTEXPR11 span<element_type, Count> first() const
     {
         TCB_SPAN_EXPECT(Count >= 0 && Count <= size());
-        return {data(), Count};
+        return {data(), static_cast<index_type>(Count)};
     }
 
     template <std::ptrdiff_t Count>
     TCB_SPAN_CONSTEXPR11 span<element_type, Count> last() const
     {
         TCB_SPAN_EXPECT(Count >= 0 && Count <= size());
-        return {data() + (size() - Count), Count};
+        return {data() + (size() - Count), static_cast<index_type>(Count)};
     }
 
     template <std::ptrdiff_t Offset, std::ptrdiff_t Count = dynamic_extent>
